@@ -94,29 +94,31 @@ variable {L : LogicData} {s : SState} {bi : Nat} {b : Branch} {h : BranchH}
 theorem targets_open (hb : s.tab[bi]? = some b) (hh : s.hs[bi]? = some h) (ho : b.closed = false) (r : RuleId) :
     targets L s r bi = match r with
       | .closure => (h.closeT.map (closeStep bi)).toList
-      | .table k => tableTargets L s.maxWorlds bi b h (s.live r bi) k
+      | .table k => tableTargets L s.maxWorlds s.maxConsts bi b h (s.live r bi) k
       | .frame fr => frameTargets L s bi b h (s.live r bi) fr := by
   unfold targets
   simp only [hb, hh, ho, Bool.false_eq_true, ↓reduceIte]
   cases r <;> rfl
 
-/-- a matching, unticked node of a table rule whose release condition cannot hold is live -/
+/-- a matching, unticked node of a (non-quantifier) table rule whose release condition cannot hold is live -/
 theorem live_of_table (I : BranchInv L s bi b h) (hlim : exceeded s.maxWorlds b = false)
-    {i : Nat} {nd : Node} {k : RuleKey} (hn : b.nodes[i]? = some nd) (hk : nodeKey nd = some k)
+    {i : Nat} {nd : Node} {k : RuleKey} {rl : Rule} (hrl : L.rule? k = some rl)
+    (hwit : rl.witness = .none ∨ rl.witness = .newWorld ∨ rl.witness = .eachWorld)
+    (hn : b.nodes[i]? = some nd) (hk : nodeKey nd = some k)
     (ht : i ∉ b.ticked) : i ∈ s.live (.table k) bi := by
   rcases I.cacheComplete (.table k) i nd hn (by simp [matchesRule, hk]) (fun _ => ht) with h1 | h1
   · exact h1
   · exfalso
-    simp only [releasable] at h1
-    split at h1
-    · simp [hlim] at h1
-    · cases h1
+    simp only [releasable, hrl, hlim, Bool.and_false, Bool.false_or, Bool.and_eq_true] at h1
+    rcases hwit with hw | hw | hw <;> simp [hw] at h1
 
 theorem nodeMissing_nil (hEW : EachWorldNoTick L) (I : BranchInv L s bi b h)
     (hb : s.tab[bi]? = some b) (hh : s.hs[bi]? = some h) (ho : b.closed = false)
     (hnone : ∀ r : RuleId, targets L s r bi = [])
     (hq : b.hasQuit = false) (hlim : exceeded s.maxWorlds b = false)
-    (hscope : InScope L b) {sn : Sent} {d : Option Bool} {w : Option Nat} (hm : Node.sent sn d w ∈ b.nodes) :
+    {sn : Sent} {d : Option Bool} {w : Option Nat} (hm : Node.sent sn d w ∈ b.nodes)
+    (hscope : ∀ r whole l0, L.ruleFor sn d = some (r, whole, l0) →
+      r.witness = .none ∨ r.witness = .newWorld ∨ r.witness = .eachWorld) :
     L.nodeMissing b sn d w = [] := by
   obtain ⟨i, hi⟩ := mem_idx hm
   cases hrf : L.ruleFor sn d with
@@ -149,14 +151,14 @@ theorem nodeMissing_nil (hEW : EachWorldNoTick L) (I : BranchInv L s bi b h)
     simp only [hrf]
     split
     · rfl
-    · rcases hscope.1 sn d w hm r whole l0 hrf with hw | hw | hw
+    · rcases hscope r whole l0 hrf with hw | hw | hw
       · -- plain rule
         simp only [hw] at hT ⊢
         have hlive : s.live (.table k) bi = [] := by simpa using hT
         have : i ∈ b.ticked := by
           rcases Classical.em (i ∈ b.ticked) with h1 | h1
           · exact h1
-          · have := live_of_table I hlim hi hk h1
+          · have := live_of_table I hlim hrule (by simp [hw]) hi hk h1
             rw [hlive] at this; cases this
         have := (hticked this).2
         simp only [hw] at this
@@ -167,7 +169,7 @@ theorem nodeMissing_nil (hEW : EachWorldNoTick L) (I : BranchInv L s bi b h)
         have : i ∈ b.ticked := by
           rcases Classical.em (i ∈ b.ticked) with h1 | h1
           · exact h1
-          · have := live_of_table I hlim hi hk h1
+          · have := live_of_table I hlim hrule (by simp [hw]) hi hk h1
             rw [hlive] at this; cases this
         have := (hticked this).2
         simp only [hw] at this
@@ -185,7 +187,7 @@ theorem nodeMissing_nil (hEW : EachWorldNoTick L) (I : BranchInv L s bi b h)
             intro ht
             have := (hticked ht).1
             rw [hEW k r hrule hw] at this; cases this
-          have hlive := live_of_table I hlim hi hk hnt
+          have hlive := live_of_table I hlim hrule (by simp [hw]) hi hk hnt
           have hi0 := (List.flatMap_eq_nil_iff.1 hT) i hlive
           simp only [hi, hrf] at hi0
           have hall : ∀ x ∈ b.successors w0, groupsDone b (instGroups whole l0 (some w0) none (some x) r) = true := by
@@ -253,7 +255,7 @@ theorem nodeMissing_nil (hEW : EachWorldNoTick L) (I : BranchInv L s bi b h)
 /-- a node of an access rule's cache whose release condition cannot hold is live -/
 theorem live_or_rel (I : BranchInv L s bi b h) {i : Nat} {nd : Node} (fr : FrameRule)
     (hn : b.nodes[i]? = some nd) (hmatch : matchesRule (.frame fr) nd = true) :
-    i ∈ s.live (.frame fr) bi ∨ releasable L s.maxWorlds b h (.frame fr) i = true :=
+    i ∈ s.live (.frame fr) bi ∨ releasable L s.maxWorlds s.maxConsts b h (.frame fr) i = true :=
   I.cacheComplete (.frame fr) i nd hn hmatch (by simp [ignoreTicked])
 
 theorem frameMissing_nil (I : BranchInv L s bi b h)
@@ -376,12 +378,20 @@ theorem satMod_of_no_targets (hEW : EachWorldNoTick L) (hmodal : L.modal = true 
     | none => rfl
     | some t => simp [hc] at hC
   exact {
-    nodes := fun sn d w hm => nodeMissing_nil hEW I hb hh ho hnone hq hlim hscope hm
+    nodes := fun sn d w hm => nodeMissing_nil hEW I hb hh ho hnone hq hlim hm (hscope.1 sn d w hm)
     ident := fun sn d w hm => (I.closeNone hct sn d w hm).2
     closure := fun sn d w hm hn => (I.closeNone hct sn d w hm).1 hn
     frame := frameMissing_nil I hb hh ho hnone hlim hmodal
     identSub := hscope.2 }
 
+
+theorem rule_not_flag {bi n : Nat} {c : Option (Nat × Nat)} {wo : Option Nat} (r : Rule) (q : Bool) (l : List Nat) (bj : Nat) :
+    Step.rule bi n c wo ∉ flagTargets bj r q l := by
+  intro hf
+  unfold flagTargets at hf
+  split at hf
+  · cases hf
+  · obtain ⟨_, _, he⟩ := List.mem_map.1 hf; cases he
 
 /-- a live index of a table rule is an unticked node of the branch -/
 theorem live_unticked (I : BranchInv L s bi b h) (hh : s.hs[bi]? = some h) {k : RuleKey} {i : Nat}
@@ -435,7 +445,32 @@ theorem table_target_unticked (hinv : Inv L s) (hb : s.tab[bi]? = some b) (ho : 
             exact he.2.1 ▸ key i hi
           · cases hx
         · cases hx
-    · cases ht
+    · -- new constant
+      obtain ⟨i, hi, hx⟩ := List.mem_flatMap.1 ht
+      split at hx
+      · split at hx
+        · exact absurd hx (rule_not_flag _ _ _ _)
+        · simp only [List.mem_singleton, Step.rule.injEq] at hx
+          exact hx.2.1 ▸ key i hi
+      · cases hx
+    · -- each constant
+      obtain ⟨i, hi, hx⟩ := List.mem_flatMap.1 ht
+      split at hx
+      · split at hx
+        · exact absurd hx (rule_not_flag _ _ _ _)
+        · split at hx
+          · cases hx
+          · split at hx
+            · obtain ⟨c0, _, he⟩ := List.mem_map.1 hx
+              simp only [Step.rule.injEq] at he
+              exact he.2.1 ▸ key i hi
+            · split at hx
+              · split at hx
+                · cases hx
+                · simp only [List.mem_singleton, Step.rule.injEq] at hx
+                  exact hx.2.1 ▸ key i hi
+              · cases hx
+      · cases hx
 
 end static
 
